@@ -2256,6 +2256,7 @@ def compile_import(compiler, expr, root, is_lazy, entries):
 
 @pattern_macro("assert", [FORM, maybe(FORM)])
 def compile_assert_expression(compiler, expr, root, test, msg):
+    test_form = test
     test = compiler.compile(test)
     if msg is not None:
         msg = compiler.compile(msg)
@@ -2270,14 +2271,14 @@ def compile_assert_expression(compiler, expr, root, test, msg):
         body=test.stmts
         + [
             asty.If(
-                test,
-                test=asty.UnaryOp(test, op=ast.Not(), operand=test.force_expr),
+                test_form,
+                test=asty.UnaryOp(test_form, op=ast.Not(), operand=test.force_expr),
                 orelse=[],
                 body=(msg.stmts if msg else [])
                 + [
                     asty.Assert(
                         expr,
-                        test=asty.Constant(test, value=False),
+                        test=asty.Constant(test_form, value=False),
                         msg=msg and msg.force_expr,
                     )
                 ],
